@@ -355,7 +355,7 @@ def run(run):
                     want_neg = not force_when_zero
                     run.check("R5", "%s|%s-known|neutral-element" % (label, ev[0]), neutral_neg == want_neg, "%s: the other operand is determined only if the known operand is %s; the code tests for %s" % (label, "zero" if force_when_zero else "non-zero", "non-zero" if neutral_neg else "zero"), F.loc(cur))
                 cur = cur.get("el")
-            run.floor("R5 %s one-operand-known cases" % label, n, 2)
+            run.floor("R5 %s one-operand-known cases" % label, n, 1)
 
     run.guarded("R5", r5)
 
